@@ -2,6 +2,7 @@
 from __future__ import annotations
 
 import copy
+import numpy as np
 import json
 from fractions import Fraction
 
@@ -161,6 +162,43 @@ def _family_shared_object():
         yield _fixed(nq, instrs, bases, ids, rng.sample(range(nm), len(ids)), cregs=rng.choice([[], [["c", 2]]]))
 
 
+_SYNB = {"kind": "synthetic", "coeffs": ["1/2", "-1/4", "3/4"],
+         "maps": [[[_o("barrier")], [_o("x")]], [[_o("barrier"), _o("barrier")], [_o("barrier")]],
+                  [[_o("h"), _o("barrier")], []]]}
+_SYNB1 = {"kind": "synthetic", "coeffs": ["1", "-1/2"], "maps": [[[_o("barrier")]], [[]]]}
+
+
+def _family_map_forms():
+    """The map choice given as list / tuple / numpy array / numpy integers, also while the placeholders carry other preset ids (the explicit
+    choice wins); an EMPTY choice with placeholders present (refused).  Sequences made only of directives (barriers) are sequences, not nothing."""
+    rzz = {"kind": "gate", "gate": "rzz", "params": [0.3]}
+    cx = {"kind": "gate", "gate": "cx", "params": []}
+    one = [_g("h", 0), _p2([0, 1], 0), _g("s", 1)]
+    two = [_p2([0, 1], 0), _g("cx", 1, 2), _p1(2, 1, 0, lab="cut_7"), _g("x", 0), _p1(0, 1, 1, lab="cut_7")]
+    for form in ("list", "tuple", "ndarray", "npints"):
+        for mids, pre in (([0], [3]), ([4], [0]), ([2], None)):
+            c = _fixed(3, one, [rzz], [[1]], mids)
+            c[1].update(map_form=form, preset=pre)
+            yield c
+        for mids, pre in (([4, 3], [0, 0]), ([0, 5], [2, 1]), ([1, 0], None)):
+            c = _fixed(3, two, [rzz, cx], [[0], [2, 4]], mids, inplace=(form == "tuple"))
+            c[1].update(map_form=form, preset=pre)
+            yield c
+    for form in ("list", "tuple", "ndarray"):
+        for body, bs, ids in ((one, [rzz], [[1]]), (two, [rzz, cx], [[0], [2, 4]])):
+            c = _fixed(3, body, bs, ids, [0] * len(ids), mode="map_empty")
+            c[1].update(map_form=form)
+            yield c
+    # barrier-only sequences
+    bar2 = [_g("h", 0), _p2([0, 1], 0), _g("cx", 1, 2), _p2([2, 1], 0), _p1(2, 1, 0), _g("t", 2)]
+    for mids in ([0, 1, 0], [1, 2, 1], [2, 0, 0], [1, 1, 1]):
+        for inplace in (False, True):
+            yield _fixed(3, bar2, [_SYNB, _SYNB1], [[1], [3], [4]], mids, inplace=inplace)
+    pairb = [_p1(0, 0, 0, lab="cut_0"), _g("rz", 1, params=[0.25]), _p1(1, 0, 1, lab="cut_0")]
+    for m in (0, 1, 2):
+        yield _fixed(2, pairb, [_SYNB], [[2, 0]], [m])
+
+
 def _family_near_bases():
     """A pair of halves [i, j] must share an equivalent basis: the two halves hold bases that are nearly, but not, the same decomposition
     (to be refused), or equal bases built separately (to be decomposed)."""
@@ -200,6 +238,7 @@ def _family_near_bases():
 def cases(rng, tier):
     yield from _family_shared_object()
     yield from _family_near_bases()
+    yield from _family_map_forms()
     N = 250 if tier == "quick" else 5000
     for _ in range(N):
         nq = rng.randint(1, 4)
@@ -301,6 +340,17 @@ def _materialise(payload):
     map_ids = [rng.randrange(len(bases[instrs[d[0]]["basis"]].maps)) for d in ids]
     if payload.get("map_ids") is not None and mode in ("valid", "near_basis"):
         map_ids = list(payload["map_ids"])      # the deterministic families name their map ids
+    if payload.get("preset") is not None:
+        # the placeholders already carry (other) map ids; an explicit map choice overrides them
+        for d, m in zip(ids, payload["preset"]):
+            for g in d:
+                instrs[g]["basis_id"] = m
+    if mode == "map_empty":
+        # an EMPTY map-id sequence is a choice of zero maps, not an omitted choice: refused unless there is nothing to decompose
+        for d, m in zip(ids, map_ids):
+            for g in d:
+                instrs[g]["basis_id"] = m
+        map_ids = []
     if mode in ("none_preset",):
         for d, m in zip(ids, map_ids):
             for g in d:
@@ -399,6 +449,13 @@ def run_real(kind, payload):
     qc, bases, ids, map_ids = _materialise(payload)
     before = canon.snapshot(qc)
     ids_before = copy.deepcopy(ids)
+    form = payload.get("map_form")
+    if map_ids is not None and form == "tuple":
+        map_ids = tuple(map_ids)
+    elif map_ids is not None and form == "ndarray":
+        map_ids = np.array(map_ids, dtype=int)
+    elif map_ids is not None and form == "npints":
+        map_ids = [np.int64(m) for m in map_ids]
     out = decompose_qpd_instructions(qc, ids, map_ids, inplace=payload["inplace"])
     res = {"ok": _strip(canon.canon_circuit(out))}
     if payload["inplace"]:
